@@ -636,7 +636,11 @@ func (c *Collection) writeWithXattrs(
 				}
 			}
 		}
-		e.xattrs, _ = json.Marshal(xattrs)
+		if len(xattrs) > 0 {
+			e.xattrs, _ = json.Marshal(xattrs)
+		} else {
+			e.xattrs = nil // no xattrs left: store NULL, not "null" or "{}"
+		}
 
 		if err = checkDocSize(len(e.value) + len(e.xattrs)); err != nil {
 			return nil, err
